@@ -437,3 +437,180 @@ Proof.
     destruct l2; reflexivity.
   - rewrite decode_le_bytes, pow256_8. unfold u64, uwrap. apply Z.mod_mod. discriminate.
 Qed.
+
+
+(* ------------------------------------------------------------ which items a section holds; no overlap *)
+
+Lemma sum_sizes_firstn_mono all l : forall a b, a <= b ->
+  sum_sizes all (firstn a l) <= sum_sizes all (firstn b l).
+Proof.
+  induction l as [|x l IH]; intros a b Hab.
+  - rewrite !firstn_nil. lia.
+  - destruct a as [|a]; [simpl; lia|]. destruct b as [|b]; [lia|].
+    cbn [firstn]. unfold sum_sizes. cbn [fold_right]. apply Nat.add_le_mono_l.
+    apply (IH a b). lia.
+Qed.
+
+(* the items placed in the section of head h are exactly the members the size pass walks *)
+Lemma section_members_exact_proof all h ith :
+  nth_error all h = Some ith -> is_data_like ith = true ->
+  place_of all h = Some {| p_head := h; p_off := 0 |} ->
+  forall i, (exists p, place_of all i = Some p /\ p_head p = h) <->
+            (h <= i /\ i - h < length (members all h)).
+Proof.
+  intros Hh Hd Hp i. split.
+  - intros (p & Hpi & Hph).
+    destruct (nth_error all i) as [it|] eqn:Hi.
+    2:{ rewrite (place_of_out all i Hi) in Hpi. discriminate. }
+    destruct (placed_in_run all i p it Hi Hpi) as (A1 & _ & _ & A4). rewrite Hph in *.
+    split; [exact A1|]. apply nth_error_Some. rewrite A4. discriminate.
+  - intros [Hle Hlt]. apply nth_error_Some in Hlt.
+    destruct (nth_error (members all h) (i - h)) as [itd|] eqn:Hm; [|contradiction].
+    destruct (run_forward all h ith Hh Hd Hp (i - h) itd Hm) as [_ B].
+    replace (h + (i - h)) with i in B by lia. eexists. split; [exact B | reflexivity].
+Qed.
+
+(* two items of one section never overlap: the earlier one ends before the later one starts *)
+Lemma section_no_overlap_proof all i j p q iti itj :
+  i < j -> nth_error all i = Some iti -> nth_error all j = Some itj ->
+  place_of all i = Some p -> place_of all j = Some q -> p_head p = p_head q ->
+  p_off p + size_of all iti <= p_off q.
+Proof.
+  intros Hij Hi Hj Hp Hq Hh.
+  destruct (placed_in_run all i p iti Hi Hp) as (A1 & _ & _ & A4).
+  destruct (placed_in_run all j q itj Hj Hq) as (B1 & _ & _ & _).
+  rewrite (offset_is_sum_proof all i p iti Hi Hp), (offset_is_sum_proof all j q itj Hj Hq).
+  rewrite <- Hh. rewrite <- (sum_sizes_firstn_S all _ _ iti A4).
+  apply sum_sizes_firstn_mono. lia.
+Qed.
+
+(* ------------------------------------------------------------ memory after all writes *)
+
+Definition w_len (w : wr) : Z := Z.of_nat (length (w_bytes w)).
+Definition w_disj (w1 w2 : wr) : Prop :=
+  (w_addr w1 + w_len w1 <= w_addr w2)%Z \/ (w_addr w2 + w_len w2 <= w_addr w1)%Z.
+Definition in_range (w : wr) (x : Z) : Prop := (w_addr w <= x < w_addr w + w_len w)%Z.
+
+Lemma write_out m a bs x : ~ (a <= x < a + Z.of_nat (length bs))%Z -> write m a bs x = m x.
+Proof.
+  intro H. unfold write.
+  destruct (a <=? x)%Z eqn:E1; [|reflexivity]. destruct (x <? a + Z.of_nat (length bs))%Z eqn:E2; [|reflexivity].
+  exfalso. apply H. apply Z.leb_le in E1. apply Z.ltb_lt in E2. lia.
+Qed.
+
+Lemma write_in m a bs k : k < length bs -> write m a bs (a + Z.of_nat k)%Z = nth_error bs k.
+Proof.
+  intro H. unfold write.
+  replace (a <=? a + Z.of_nat k)%Z with true by (symmetry; apply Z.leb_le; lia).
+  replace (a + Z.of_nat k <? a + Z.of_nat (length bs))%Z with true by (symmetry; apply Z.ltb_lt; lia).
+  simpl. replace (a + Z.of_nat k - a)%Z with (Z.of_nat k) by lia. rewrite Nat2Z.id. reflexivity.
+Qed.
+
+Lemma apply_untouched ws : forall m x,
+  (forall w, In w ws -> ~ in_range w x) -> apply_writes ws m x = m x.
+Proof.
+  induction ws as [|w ws IH]; intros m x H; simpl; [reflexivity|].
+  rewrite IH by (intros w' Hw'; apply H; right; exact Hw').
+  apply write_out. apply (H w). left. reflexivity.
+Qed.
+
+(* writes that do not overlap can be done in any order: each range reads back its own bytes *)
+Lemma apply_read ws : forall m w k,
+  NoDup (map w_idx ws) ->
+  (forall w1 w2, In w1 ws -> In w2 ws -> w_idx w1 <> w_idx w2 -> w_disj w1 w2) ->
+  In w ws -> k < length (w_bytes w) ->
+  apply_writes ws m (w_addr w + Z.of_nat k)%Z = nth_error (w_bytes w) k.
+Proof.
+  induction ws as [|a ws IH]; intros m w k Hnd Hdis Hin Hk; [destruct Hin|].
+  simpl. inversion Hnd as [|? ? Hnotin Hnd']; subst.
+  destruct Hin as [E|Hin].
+  - subst a. rewrite apply_untouched.
+    + apply write_in. exact Hk.
+    + intros w' Hw' Hr.
+      assert (Hne : w_idx w <> w_idx w').
+      { intro E. apply Hnotin. rewrite E. apply in_map. exact Hw'. }
+      destruct (Hdis w w' (or_introl eq_refl) (or_intror Hw') Hne) as [D|D];
+        unfold in_range, w_len in *; lia.
+  - apply IH; auto. intros w1 w2 H1 H2. apply Hdis; right; assumption.
+Qed.
+
+Lemma In_item_writes base lab all w :
+  In w (item_writes base lab all) <-> exists i, item_write base lab all i = Some w.
+Proof.
+  unfold item_writes. rewrite in_flat_map. split.
+  - intros (i & _ & Hi). exists i. destruct (item_write base lab all i) as [w'|]; [|destruct Hi].
+    destruct Hi as [E|[]]. subst. reflexivity.
+  - intros (i & Hi). exists i. split.
+    + apply in_seq. unfold item_write in Hi. destruct (nth_error all i) eqn:E; [|discriminate].
+      assert (i < length all) by (apply nth_error_Some; rewrite E; discriminate). lia.
+    + rewrite Hi. left. reflexivity.
+Qed.
+
+Lemma item_write_idx base lab all i w : item_write base lab all i = Some w -> w_idx w = i.
+Proof.
+  unfold item_write. destruct (nth_error all i); [|discriminate]. destruct (place_of all i); [|discriminate].
+  intro H. inversion H. reflexivity.
+Qed.
+
+(* the writes of two different items never overlap, given that the allocator keeps sections apart *)
+Lemma item_writes_disjoint base lab all : blocks_disjoint base all ->
+  forall i j wi wj, i <> j -> item_write base lab all i = Some wi -> item_write base lab all j = Some wj ->
+  w_disj wi wj.
+Proof.
+  intros Hb.
+  assert (L : forall i j wi wj, i < j -> item_write base lab all i = Some wi ->
+                                item_write base lab all j = Some wj -> w_disj wi wj).
+  { intros i j wi wj Hij Hi Hj. unfold item_write in Hi, Hj.
+    destruct (nth_error all i) as [iti|] eqn:Ei; [|discriminate].
+    destruct (place_of all i) as [p|] eqn:Pi; [|discriminate].
+    destruct (nth_error all j) as [itj|] eqn:Ej; [|discriminate].
+    destruct (place_of all j) as [q|] eqn:Pj; [|discriminate].
+    inversion Hi; subst wi. inversion Hj; subst wj. clear Hi Hj.
+    unfold w_disj, w_len. cbn [w_addr w_bytes]. rewrite !content_length.
+    destruct (Nat.eq_dec (p_head p) (p_head q)) as [E|NE].
+    - left. pose proof (section_no_overlap_proof all i j p q iti itj Hij Ei Ej Pi Pj E). rewrite E. lia.
+    - destruct (placed_in_run all i p iti Ei Pi) as (_ & _ & A3 & _).
+      destruct (placed_in_run all j q itj Ej Pj) as (_ & _ & B3 & _).
+      destruct (section_size_covers_proof all i p iti Ei Pi) as (C1 & _).
+      destruct (section_size_covers_proof all j q itj Ej Pj) as (D1 & _).
+      destruct (Hb (p_head p) (p_head q) NE A3 B3) as [H|H]; [left|right]; lia. }
+  intros i j wi wj Hne Hi Hj.
+  destruct (Nat.lt_ge_cases i j) as [H|H].
+  - apply (L i j wi wj H Hi Hj).
+  - assert (Hji : j < i) by lia. destruct (L j i wj wi Hji Hj Hi) as [D|D]; [right|left]; exact D.
+Qed.
+
+(* In whatever order the items are written - each exactly once -, afterwards every item's bytes
+   are found at its place, and nothing outside the items' ranges has been touched. *)
+Lemma memory_after_writes_proof base lab all ws m0 :
+  blocks_disjoint base all ->
+  NoDup (map w_idx ws) -> (forall w, In w ws <-> In w (item_writes base lab all)) ->
+  (forall i p it k, nth_error all i = Some it -> place_of all i = Some p -> k < size_of all it ->
+     apply_writes ws m0 (base (p_head p) + Z.of_nat (p_off p) + Z.of_nat k)%Z
+     = nth_error (content base lab all it) k) /\
+  (forall x, (forall i p it, nth_error all i = Some it -> place_of all i = Some p ->
+                ~ (base (p_head p) + Z.of_nat (p_off p) <= x
+                   < base (p_head p) + Z.of_nat (p_off p) + Z.of_nat (size_of all it))%Z) ->
+             apply_writes ws m0 x = m0 x).
+Proof.
+  intros Hb Hnd Hws. split.
+  - intros i p it k Hi Hp Hk.
+    set (w := {| w_idx := i; w_addr := (base (p_head p) + Z.of_nat (p_off p))%Z;
+                 w_bytes := content base lab all it |}).
+    assert (Hw : item_write base lab all i = Some w) by (unfold item_write; rewrite Hi, Hp; reflexivity).
+    change (base (p_head p) + Z.of_nat (p_off p))%Z with (w_addr w).
+    change (content base lab all it) with (w_bytes w).
+    apply apply_read; auto.
+    + intros w1 w2 H1 H2 Hne. apply Hws in H1, H2. apply In_item_writes in H1, H2.
+      destruct H1 as (i1 & H1), H2 as (i2 & H2).
+      apply (item_writes_disjoint base lab all Hb i1 i2 w1 w2); auto.
+      rewrite <- (item_write_idx _ _ _ _ _ H1), <- (item_write_idx _ _ _ _ _ H2). exact Hne.
+    + apply Hws. apply In_item_writes. exists i. exact Hw.
+    + cbn [w_bytes w]. rewrite content_length. exact Hk.
+  - intros x Hx. apply apply_untouched. intros w Hw Hr.
+    apply Hws in Hw. apply In_item_writes in Hw. destruct Hw as (i & Hw).
+    unfold item_write in Hw. destruct (nth_error all i) as [it|] eqn:Hi; [|discriminate].
+    destruct (place_of all i) as [p|] eqn:Hp; [|discriminate]. inversion Hw; subst w.
+    apply (Hx i p it Hi Hp). unfold in_range, w_len in Hr. cbn [w_addr w_bytes] in Hr.
+    rewrite content_length in Hr. exact Hr.
+Qed.
